@@ -23,7 +23,7 @@ RULE = (
     "margins) and checks, after set_p_values, that each assertion's own test holds its own u.  Super-majority assertions are also built by calling the constructor directly, and plurality contests also by Contest.from_cvr_list (populations of <= 3 cards, style on/off: the cards feeding the assertions).  Non-trivial = case with data at both ends 0 and u attained or a card filtered out; "
     "distinct = distinct (kind, audit type, style, multiset, threshold)"
 )
-ASSUMPTIONS = ["tolerance 1e-12*u on the range test", "non-positive margins are outside the property's quantifier: counted, not judged",
+ASSUMPTIONS = ["the range test is exact (no tolerance): the bound and the largest possible datum are the same floating-point expression; 1e-12 relative on the value of u itself", "non-positive margins are outside the property's quantifier: counted, not judged",
                "set_p_values is only called when the contest has at least one datum"]
 REQUIRE_VAC = ["contests_built_by_from_cvr_list", "supermajority_assertion_built_directly", "two_assertions_with_different_bounds", "datum_equal_0", "datum_equal_u", "cards_filtered_by_threshold", "cards_filtered_by_style", "pooled_cards_in_data", "set_p_values_calls"]
 PLAN = {"quick": {"full": 2, "reduced": 2}, "thorough": {"full": 2, "reduced": 3}}
@@ -77,7 +77,7 @@ def judge(kind, cards, style, audit_type, thr, feats=None, direct=False):
         out.append((f"C06|{kind}|{audit_type}|returned-u", f"returned u = {u}, expected {want_u} (margin {v}, assorter bound {ua})"))
     if any(x != x for x in d):
         out.append((f"C06|{kind}|{audit_type}|nan-datum", f"data contain NaN: {d.tolist()}"))
-    elif len(d) and (d.min() < -1e-12 * u or d.max() > u * (1 + 1e-12)):
+    elif len(d) and (d.min() < 0 or d.max() > u):  # exact: a test that validates its data (wald_sprt) refuses a datum one ulp above u
         out.append((f"C06|{kind}|{audit_type}|datum-outside-[0,u]", f"data {d.tolist()} outside [0, {u}] (margin {v})"))
     if polling:
         if len(d) != len(mvrs):
@@ -119,7 +119,7 @@ def judge(kind, cards, style, audit_type, thr, feats=None, direct=False):
         tu = asn.test.u
         if abs(tu - want_u) > 1e-12 * want_u:
             out.append((f"C06|{kind}|{audit_type}|u-installed-in-test", f"assertion.test.u = {tu} after set_p_values, expected {want_u}"))
-        if d.max() > tu * (1 + 1e-12):
+        if d.max() > tu:
             out.append((f"C06|{kind}|{audit_type}|datum-above-test-u", f"datum {d.max()} exceeds the bound {tu} the test was told"))
         if len(asn.p_history) != len(d):
             out.append((f"C06|{kind}|{audit_type}|history-length", f"{len(asn.p_history)} history entries for {len(d)} data"))
@@ -174,6 +174,8 @@ def judge_tiny_margin(kind, audit_type, margin):
     w = s3.workflow(kind, cards, True, audit_type=audit_type)
     asn, con, cvrs, mvrs = w["asn"], w["con"], w["cvrs"], w["mvrs"]
     ua = asn.assorter.upper_bound
+    if margin > 2 * ua - 1:
+        return []  # no population has such a margin (the assorter mean cannot exceed its bound)
     asn.margin = margin
     asn.test.u = ua
     con.sample_threshold = 2
@@ -223,7 +225,7 @@ def judge_multi(cards, style, audit_type):
         with warnings.catch_warnings():
             warnings.simplefilter("ignore")
             d, u = a.mvrs_to_data(mvrs, cvrs)
-        if len(d) and max(d) > a.test.u * (1 + 1e-12):
+        if len(d) and max(d) > a.test.u:
             out.append((f"C06|multi|{audit_type}|datum-above-test-u", f"assertion {k}: datum {max(d)} above the bound {a.test.u} left in its test"))
             break
     return out, margins
@@ -252,7 +254,7 @@ def run_shard(sh, rec):
     if sh[0] == "tiny":
         for kind in KINDS:
             for at in (Audit.AUDIT_TYPE.CARD_COMPARISON, Audit.AUDIT_TYPE.ONEAUDIT):
-                for margin in (1e-3, 1e-5, 3e-6, 1e-6, 1e-9, 1e-12):
+                for margin in (1e-3, 1e-5, 3e-6, 1e-6, 1e-9, 1e-12) + tuple(k / 200 for k in range(1, 200)):  # tiny margins, and a grid of ordinary ones
                     rec.state()
                     rec.trans()
                     rec.evals(2)
